@@ -115,6 +115,9 @@ fn hb_stall_between(hb: &Heartbeat, a: Instant, b: Instant) -> i64 {
 /// verification sandbox; failure is harmless).  Only reduces scheduling noise; every verdict that
 /// depends on timing is additionally guarded by the stall rule.
 fn raise_priority() -> bool {
+    if std::env::var("C16_NO_RENICE").is_ok() {
+        return false; // for testing the stall rule on its own
+    }
     std::process::Command::new("renice")
         .args(["-n", "-15", "-p", &std::process::id().to_string()])
         .stdout(std::process::Stdio::null())
